@@ -125,18 +125,22 @@ static const char * kSolvers[] = {"IncrementalPruning", "Witness", "LinearSuppor
 using SparseModel = P::SparseModel<AIToolbox::MDP::SparseModel>;
 
 template <class M>
-static P::ValueFunction solveWith(Rng & rng, int which, const M & model, const PomdpTables & pt, unsigned h, double tol) {
+static P::ValueFunction solveWith(Rng & rng, int which, const M & model, const PomdpTables & pt, unsigned h, double tol, size_t fewBeliefs = 0) {
     switch (which) {
         case 0: { P::IncrementalPruning s(h, tol); return std::get<1>(s(model)); }
         case 1: { P::Witness s(h, tol); return std::get<1>(s(model)); }
         case 2: { P::LinearSupport s(h, tol); return std::get<1>(s(model)); }
         case 3: {
-            P::PBVI s(8, h, tol);
-            if (rng.coin()) { auto bl = someBeliefs(rng, pt.S, pt.S + 1 + rng.below(6)); return std::get<1>(s(model, bl)); }
+            P::PBVI s(fewBeliefs ? fewBeliefs : 8, h, tol);
+            if (fewBeliefs && rng.coin()) {           // a sparse explicit support: fewer beliefs than |S|+1, no corners guaranteed
+                std::vector<AIToolbox::Vector> bl; for (size_t i = 0; i < fewBeliefs; ++i) bl.push_back(dyadicBelief(rng, pt.S));
+                return std::get<1>(s(model, bl));
+            }
+            if (!fewBeliefs && rng.coin()) { auto bl = someBeliefs(rng, pt.S, pt.S + 1 + rng.below(6)); return std::get<1>(s(model, bl)); }
             return std::get<1>(s(model));
         }
         case 4: {
-            P::PERSEUS s(6 + rng.below(6), h, tol);
+            P::PERSEUS s(fewBeliefs ? fewBeliefs : 6 + rng.below(6), h, tol);
             double minR = pt.R.minCoeff();
             return std::get<1>(s(model, minR));
         }
@@ -144,12 +148,13 @@ static P::ValueFunction solveWith(Rng & rng, int which, const M & model, const P
     }
 }
 
-static void runSolver(Rng & rng, int which, const PomdpTables & pt, unsigned h, double tol = 0.0, bool sparse = false) {
+static void runSolver(Rng & rng, int which, const PomdpTables & pt, unsigned h, double tol = 0.0, bool sparse = false, size_t fewBeliefs = 0) {
     Model model = toDense(pt);
     AIToolbox::Seeder::setRootSeed((unsigned)rng.below(1u << 30));
     P::ValueFunction vf;
-    if (sparse) { SparseModel sm(model); vf = solveWith(rng, which, sm, pt, h, tol); std::printf("#stat sparse 1\n"); }
-    else vf = solveWith(rng, which, model, pt, h, tol);
+    if (sparse) { SparseModel sm(model); vf = solveWith(rng, which, sm, pt, h, tol, fewBeliefs); std::printf("#stat sparse 1\n"); }
+    else vf = solveWith(rng, which, model, pt, h, tol, fewBeliefs);
+    if (fewBeliefs) std::printf("#stat few_beliefs:%zu 1\n#stat long_horizon:%u 1\n", fewBeliefs, h);
     emitVF(kSolvers[which], h, pt, vf, someBeliefs(rng, pt.S, pt.S + 4));
 }
 
@@ -292,10 +297,16 @@ static void emitWV(Rng & rng) {
 static void emitPERSEUS(Rng & rng) {
     size_t S = 2 + rng.below(3), A = 1 + rng.below(3), O = rng.coin() ? 2 : 1;
     unsigned h = 1 + (unsigned)rng.below(3);
+    size_t nB = S + 1 + rng.below(5);
+    if (rng.coin(2, 3)) {                                  // sparse support, many horizons (a later backup can regress at a support belief)
+        nB = 1 + rng.below(3); h = 4 + (unsigned)rng.below(5);
+        if (rng.coin(1, 4)) { O = 3; h = std::min(h, 6u); }
+        if (rng.coin()) { S = 3; A = 2 + rng.below(2); }
+        std::printf("#stat perseus_few_beliefs:%zu 1\n", nB);
+    }
     auto pt = randomPomdp(rng, S, A, O);
     Model model = toDense(pt);
     unsigned seed = (unsigned)rng.below(1u << 30);
-    size_t nB = S + 1 + rng.below(5);
     AIToolbox::Seeder::setRootSeed(seed);
     P::PERSEUS solver(nB, h, 0.0);
     auto vf = std::get<1>(solver(model, pt.R.minCoeff()));
@@ -386,6 +397,15 @@ static void emitPBVI(Rng & rng) {
     Model model = toDense(pt);
     auto bl = someBeliefs(rng, S, 1 + rng.below(S + 3));
     if (rng.coin(1, 3)) bl.erase(bl.begin(), bl.begin() + std::min<size_t>(bl.size() - 1, S));   // drop the corners sometimes
+    if (O <= 2 && rng.coin(1, 2)) {                        // sparse support (1..3 beliefs, corners not guaranteed), horizons 4..8
+        bl.clear(); size_t nB = 1 + rng.below(3);
+        for (size_t i = 0; i < nB; ++i) {
+            if (rng.coin(1, 3)) { AIToolbox::Vector c = AIToolbox::Vector::Zero(S); c[rng.below(S)] = 1.0; bl.push_back(c); }
+            else bl.push_back(dyadicBelief(rng, S));
+        }
+        h = 4 + (unsigned)rng.below(5);
+        std::printf("#stat pbvi_few_beliefs:%zu 1\n", nB);
+    }
     P::PBVI solver(bl.size(), h, 0.0);
     auto vf = std::get<1>(solver(model, bl));
     Line l; l << "C04" << "pbvi"; putPomdp(l, pt); l << (size_t)bl.size();
@@ -415,8 +435,14 @@ void verif::verif_case(Rng & rng, long idx, const std::string & tier) {
     auto pt = ugly ? uglyPomdp(rng, S, A, O) : randomPomdp(rng, S, A, O);
     if (ugly) std::printf("#stat ugly 1\n");
     double tol = (rng.coin(1, 8)) ? 0.5 : 0.0;                                // early stop on tolerance: shorter value function
+    // point-based solvers on a SPARSE support (fewer beliefs than |S|+1) over many horizons: backups may regress there
+    size_t fewBeliefs = 0;
+    if ((which == 3 || which == 4) && rng.coin(1, 2)) {
+        fewBeliefs = 1 + rng.below(3); h = 4 + (unsigned)rng.below(5); tol = 0.0;
+        if (O == 3) h = std::min(h, 6u);
+    }
     if (std::getenv("VERIF_DEBUG")) std::fprintf(stderr, "case %ld: %s S=%zu A=%zu O=%zu h=%u ugly=%d sparse=%d tol=%g\n", idx, kSolvers[which], S, A, O, h, (int)ugly, (int)sparse, tol);
-    runSolver(rng, which, pt, h, tol, sparse);
+    runSolver(rng, which, pt, h, tol, sparse, fewBeliefs);
     if (r % 10 == 0) { emitXD(rng); emitPR(rng); emitCS(rng); emitPJ(rng); emitPBVI(rng); emitWV(rng); emitPERSEUS(rng); emitLS(rng); }
 }
 
